@@ -978,6 +978,17 @@ func (gen *Generator) Generate(expr Sexp) error {
 		}
 	case *SexpArray:
 		return gen.GenerateArray(e)
+	case *SexpHash:
+		if len(e.KeyOrder) == 0 && e.TypeName == "hash" {
+			// the reader turns {} into an empty hash object; pushing that
+			// one object made every evaluation of the literal return the
+			// same hash ((defn mk [] {}) (hset (mk) k: 1) (mk) => {k:1}).
+			// Build a new one each time, as {a: 1} does through (hash a: 1).
+			gen.AddInstruction(CallInstr{gen.env.MakeSymbol("hash"), 0})
+			return nil
+		}
+		gen.AddInstruction(PushInstr{expr})
+		return nil
 	default:
 		gen.AddInstruction(PushInstr{expr})
 		return nil
